@@ -922,4 +922,12 @@ namespace pika::detail {
 
         return command_line_handling_result::success;
     }
+#if defined(PIKA_VERIF_HOOKS)
+    command_line_handling_result verif_command_line_call(command_line_handling& c,
+        pika::program_options::options_description const& desc_cmdline, int argc,
+        char const* const* argv)
+    {
+        return c.call(desc_cmdline, argc, argv);
+    }
+#endif
 }    // namespace pika::detail
